@@ -15,7 +15,7 @@ import numpy as np
 
 from harness import stabutil as su
 from harness import tabutil as tu
-from harness.common import Driver, Result, err_class
+from harness.common import Driver, Result, err_class, impl_guard
 
 LEVEL = "proof"
 TRUSTED_BASE = [
@@ -163,10 +163,20 @@ def check_one(res, drv, st, tag, pending):
     if err is not None:
         res.violation(f"inverse_circuit:raises:{err}", "inverse_circuit raised on a valid stabilizer tableau", input=inp)
         return
-    circ = [tuple(int(a) if not isinstance(a, str) else a for a in g) for g in circ]
+    try:
+        circ = [tuple(int(a) if not isinstance(a, str) else a for a in g) for g in circ]
+        t = np.asarray(tab0.table).astype(int)
+        np.asarray(tab0.phase)
+        unknown = [g for g in circ if g[0] not in DENSE_GATE and g[0] not in ("CNOT", "CZ", "I")]
+    except Exception as e:  # noqa: BLE001 — not (tableau, list of gate tuples)
+        res.violation("inverse_circuit:malformed-result", f"inverse_circuit must return (tableau, list of gate tuples): {err_class(e)}", input=inp)
+        return
+    if unknown:
+        # a gate name outside the documented alphabet: neither the dense reference nor the verified semantics can run it
+        res.violation("inverse_circuit:unknown-gate", f"the returned gate list contains {unknown[0]!r}", input=inp, circ=str(circ)[:300])
+        return
     fails = []  # (key, clause, extra) found on the implementation; reported in flush() once the model's verdict is known
     # (a) ends in |0..0> with positive signs
-    t = np.asarray(tab0.table).astype(int)
     if not (np.array_equal(t[:, :n], np.zeros((n, n), dtype=int)) and np.array_equal(t[:, n:], np.eye(n, dtype=int)) and not np.any(tab0.phase)):
         fails.append(("inverse_circuit:not-zero-state", "the tableau returned by inverse_circuit is not |0..0> with all signs positive",
                       dict(impl=su.stab_args(tab0), circ=su.circ_token(circ))))
@@ -306,16 +316,21 @@ def graph_cases(res, drv, rng, graphs):
 
             try:
                 rho_other = np.asarray(graph_to_density(g))
-                if tu.is_valid(ct) and not np.allclose(tu.dense_rho(ct), rho_other, atol=1e-8):
+                if tu.is_binary(ct) and tu.is_valid(ct) and (np.shape(rho_other) != (2 ** n, 2 ** n) or not np.allclose(tu.dense_rho(ct), rho_other, atol=1e-8)):
                     res.violation("get_clifford_tableau_from_graph:disagrees-with-graph_to_density",
                                   "the Clifford tableau of a graph and graph_to_density of the same graph object describe different states", input=inp)
-            except Exception:  # noqa: BLE001
-                pass
+            except Exception as e:  # noqa: BLE001 — was `pass`: graph_to_density raising on a valid graph went unreported and uncounted
+                res.count("errors", f"graph_to_density:{err_class(e)}")
+                res.violation(f"graph_to_density:raises:{err_class(e)}", "graph_to_density raised on a valid graph", input=inp, impl=repr(e)[:200])
         if not (tu.is_binary(ct) and tu.is_valid(ct)):
             res.violation("get_clifford_tableau_from_graph:invalid", "invalid tableau for a graph", input=inp, impl=tu.tab_args(ct))
         elif tu.stab_canon(ct) != want:
             res.violation("get_clifford_tableau_from_graph:wrong-state", "the tableau does not represent the graph state", input=inp, impl=tu.tab_args(ct))
-        st = rc.get_stabilizer_tableau_from_graph(g)
+        try:
+            st = rc.get_stabilizer_tableau_from_graph(g)
+        except Exception as e:  # noqa: BLE001
+            res.violation(f"get_stabilizer_tableau_from_graph:raises:{err_class(e)}", "raised on a graph", input=inp)
+            continue
         # the theorems `C11.clifford_tableau_from_graph_exact` / `inverse_circuit_on_graph_state` pin the model's output on simple
         # graphs down completely: destabilizers Z_i, stabilizers X_i Z_N(i), all signs +, from the circuit "CZ per edge j<k, then H
         # on every qubit".  The implementation must agree (a correspondence matter, not the property: the property only asks for
@@ -326,10 +341,14 @@ def graph_cases(res, drv, rng, graphs):
                 res.exact_break("graph:textbook-tableau", input=inp, impl=tu.tab_args(ct), model="[Z_i | X_i Z_N(i)], signs +")
             from graphiq.backends.stabilizer.functions import stabilizer as sfs_g
 
-            _, circ_g = sfs_g.inverse_circuit(st.copy())
-            circ_g = [tuple(int(a) if not isinstance(a, str) else a for a in x) for x in circ_g]
             circ_exp = [("CZ", j, k) for j in range(n) for k in range(j + 1, n) if adj[j, k]] + [("H", j) for j in range(n)]
-            if circ_g != circ_exp:
+            try:
+                _, circ_g = sfs_g.inverse_circuit(st.copy())
+                circ_g = [tuple(int(a) if not isinstance(a, str) else a for a in x) for x in circ_g]
+            except Exception as e:  # noqa: BLE001
+                circ_g = None
+                res.violation(f"inverse_circuit:raises:{err_class(e)}", "inverse_circuit raised on the stabilizer tableau of a graph state", input=inp)
+            if circ_g is not None and circ_g != circ_exp:
                 res.exact_break("graph:textbook-circuit", input=inp, impl=su.circ_token(circ_g), model=su.circ_token(circ_exp))
         lines.append(f"stab.cliff {su.stab_args(st)}")
         items.append((inp, ct))
@@ -365,40 +384,55 @@ def run(ctx, budget=1.0):
     global COV
     from graphiq.backends.stabilizer.functions import stabilizer as sfs_cov
 
-    COV = LineCov(sfs_cov.inverse_circuit, sfs_cov.canonical_form)
-    # corpus first: the witness of the repaired D42 (regression input, no special treatment)
-    check_one(res, drv, stab_of_args(D42_WITNESS), "corpus:D42", pending)
-    flush(res, drv, pending)
+    try:
+        COV = LineCov(sfs_cov.inverse_circuit, sfs_cov.canonical_form)
+    except Exception as e:  # noqa: BLE001 — coverage is an observation (a decorated / compiled function has no source lines): never a crash
+        COV = None
+        res.notes.append(f"line coverage of the real functions not available ({type(e).__name__}: {e})"[:200])
+    # every stream runs under common.impl_guard: the generators (su.all_states, regauge_*, random_state, low_x_rank_state, to_stabilizer) call
+    # graphiq outside the `try` of check_one; an exception there is reported (exit 1) instead of ending run() as exit 2
+    with impl_guard(res, "inverse_circuit:corpus", promise=True):
+        # corpus first: the witness of the repaired D42 (regression input, no special treatment)
+        check_one(res, drv, stab_of_args(D42_WITNESS), "corpus:D42", pending)
+        flush(res, drv, pending)
     # exhaustive small: all states n<=2 (quick) / n<=3 (thorough), several generating sets each
     nmax_ex = 2 if ctx.quick else 3
     regs = 3 if ctx.quick else 8
-    for n in range(1, nmax_ex + 1):
-        for t in su.all_states(n):
-            for k in range(regs):
-                st = su.regauge_clifford(t, rng).to_stabilizer()
-                if rng.random() < 0.5:
-                    st = su.regauge_stab(st, rng)
-                check_one(res, drv, st, f"all-states-n{n}", pending)
-        flush(res, drv, pending)
-    if ctx.quick:
-        for t in rng.sample(su.all_states(3), 150):
-            check_one(res, drv, su.regauge_clifford(t, rng).to_stabilizer(), "sample-n3", pending)
-        flush(res, drv, pending)
-    # random larger
-    sizes = [rng.randrange(4, 9) for _ in range(int(60 * budget))] + [rng.randrange(9, 25) for _ in range(int(20 * budget))]
-    if not ctx.quick:
-        sizes += [rng.randrange(4, 12) for _ in range(400)] + [rng.randrange(12, 40) for _ in range(60)] + [60, 60]
-    for n in sizes:
-        check_one(res, drv, su.random_state(rng, n).to_stabilizer(), "random", pending)
-        if len(pending) >= 40:
+    with impl_guard(res, "inverse_circuit:all-states", promise=True):
+        for n in range(1, nmax_ex + 1):
+            pool = su.all_states(n)
+            if len(pool) != {1: 6, 2: 60, 3: 1080}[n] or not all(tu.is_valid(t) for t in pool):
+                # enumerated with graphiq's own gate functions: a changed gate would silently shrink the "all states" stream
+                res.exact_break(f"coverage collapsed: all_states({n})", input={"n": n}, impl=f"{len(pool)} states enumerated through hadamard_gate / phase_gate / cnot_gate",
+                                model=f"{ {1: 6, 2: 60, 3: 1080}[n]} stabilizer states, all symplectic")
+            for t in pool:
+                for k in range(regs):
+                    st = su.regauge_clifford(t, rng).to_stabilizer()
+                    if rng.random() < 0.5:
+                        st = su.regauge_stab(st, rng)
+                    check_one(res, drv, st, f"all-states-n{n}", pending)
             flush(res, drv, pending)
-    flush(res, drv, pending)
-    # low X rank: the z_list branch of the first Hadamard block (the code of the D42 repair) on most columns
-    for n in [rng.randrange(2, 10) for _ in range(int((120 if ctx.quick else 1500) * budget))] + [rng.randrange(10, 25) for _ in range(int((15 if ctx.quick else 100) * budget))]:
-        check_one(res, drv, low_x_rank_state(rng, n).to_stabilizer(), "low-x-rank", pending)
-        if len(pending) >= 40:
+        if ctx.quick:
+            for t in rng.sample(su.all_states(3), 150):
+                check_one(res, drv, su.regauge_clifford(t, rng).to_stabilizer(), "sample-n3", pending)
             flush(res, drv, pending)
-    flush(res, drv, pending)
+    with impl_guard(res, "inverse_circuit:random", promise=True):
+        # random larger
+        sizes = [rng.randrange(4, 9) for _ in range(int(60 * budget))] + [rng.randrange(9, 25) for _ in range(int(20 * budget))]
+        if not ctx.quick:
+            sizes += [rng.randrange(4, 12) for _ in range(400)] + [rng.randrange(12, 40) for _ in range(60)] + [60, 60]
+        for n in sizes:
+            check_one(res, drv, su.random_state(rng, n).to_stabilizer(), "random", pending)
+            if len(pending) >= 40:
+                flush(res, drv, pending)
+        flush(res, drv, pending)
+    with impl_guard(res, "inverse_circuit:low-x-rank", promise=True):
+        # low X rank: the z_list branch of the first Hadamard block (the code of the D42 repair) on most columns
+        for n in [rng.randrange(2, 10) for _ in range(int((120 if ctx.quick else 1500) * budget))] + [rng.randrange(10, 25) for _ in range(int((15 if ctx.quick else 100) * budget))]:
+            check_one(res, drv, low_x_rank_state(rng, n).to_stabilizer(), "low-x-rank", pending)
+            if len(pending) >= 40:
+                flush(res, drv, pending)
+        flush(res, drv, pending)
     # graphs
     graphs = [g for n in range(1, 5 if ctx.quick else 6) for g in all_graphs(n)]
     if not ctx.quick:
@@ -415,12 +449,14 @@ def run(ctx, budget=1.0):
             h.add_edges_from(g.edges())
             scr.append(h)
     graphs += scr
-    graph_cases(res, drv, rng, graphs)
-    malformed(res, drv, rng, 40)
-    res.exhaustive = not ctx.quick
+    with impl_guard(res, "graph-tableaux", promise=True):
+        graph_cases(res, drv, rng, graphs)
+    with impl_guard(res, "malformed"):
+        malformed(res, drv, rng, 40)
+    res.exhaustive = (not ctx.quick) and not res.extra.get("streams_aborted")
     res.notes.append(f"exhaustive over all stabilizer states for n<={nmax_ex} (x{regs} generating sets each) and all graphs on <= {4 if ctx.quick else 5} vertices")
     res.extra["driver_lines"] = drv.n_lines
-    unreached = COV.unreached()
+    unreached = COV.unreached() if COV is not None else ["(line coverage not available)"]
     res.extra["unreached_lines"] = unreached
     res.notes.append("line coverage of the real inverse_circuit/canonical_form (sys.settrace, n<=24): per-line hit counts in `branches`; "
                      + ("every line was reached" if not unreached else "lines no generated input reached: " + " | ".join(unreached)))
